@@ -76,6 +76,10 @@ func ebnfRun(args []string) error {
 		real := map[string]any{"status": "ok", "tree": []eProd{}, "roundtrip": false, "text": ""}
 		c["real"] = real
 		mk, ok := gengram.Grammars[id]
+		if st, isStatic := staticEbnf[id]; isStatic {
+			mk, ok = st.mk, true
+			c["root"] = st.root
+		}
 		if !ok {
 			real["status"] = "no-generated-grammar"
 			continue
